@@ -34,8 +34,9 @@ pub fn c43(args: &Args) -> ! {
             (2, 1, 0, vec![0, 1, 2, 3], true, 30),
             (2, 1, 1, vec![0, 1, 2, 3], true, 30),
             (2, 2, 0, vec![0, 1, 2, 3], false, 30),
-            (3, 1, 0, vec![0, 1, 2, 3], false, 35),
-            (3, 1, 1, vec![0, 1, 2], false, 35),
+            (2, 2, 1, vec![0, 1, 2, 3], false, 30),
+            (3, 1, 0, vec![0, 1, 2, 3], false, 30),
+            (3, 1, 1, vec![0, 1, 2], false, 30),
         ]
     } else {
         vec![
@@ -65,11 +66,61 @@ pub fn c43(args: &Args) -> ! {
 }
 
 pub fn c44(args: &Args) -> ! {
-    let _ = args;
-    mcx::machinery_error("C44 not wired yet")
+    let mut rep = Report::new(args, Level::ModelChecking);
+    let quick = args.tier == Tier::Quick;
+    let mut jobs = Vec::new();
+    // (max lender program length, max holder program length, shards, cap)
+    let plan: Vec<(i64, i64, i64, u64)> =
+        if quick { vec![(3, 1, 1, 30), (3, 2, 4, 30)] } else { vec![(3, 2, 2, 700), (4, 2, 4, 700), (3, 3, 12, 700)] };
+    for (ll, hl, shards, cap) in plan {
+        for sh in 0..shards {
+            let shape = format!(
+                "lender/loan: lender programs over {{lend, read-shared}} of length <= {ll} (<= 2 lends) then drop; holder programs over {{get_mut, get_ref, judged get_ref}} of length <= {hl} then drop; shard {sh}/{shards}"
+            );
+            jobs.push(Job::new("afc", "c44", &[ll, hl, sh, shards], None, cap, &shape));
+        }
+    }
+    let results = run_jobs(&args.prop, &jobs, PARALLEL);
+    fold(&mut rep, &args.prop, results);
+    guards(
+        &mut rep,
+        &["lend_granted", "lend_refused", "access_granted", "access_refused", "access_judged_after_lender_drop_returned", "executions_ending_with_payload_freed_once"],
+    );
+    rep.set("preemption_bound", "unbounded");
+    rep.assume("BiArc allocates through Box: freeing is observed through the payload's Drop (exactly once, only after every handle announced its end of life) and loom's leak tracker, not through an instrumented allocator");
+    rep.assume("'after the lender's drop has returned' is observed through a release/acquire flag, as any caller would have to");
+    rep.finish()
 }
 
 pub fn c33(args: &Args) -> ! {
-    let _ = args;
-    mcx::machinery_error("C33 not wired yet")
+    let mut rep = Report::new(args, Level::ModelChecking);
+    let quick = args.tier == Tier::Quick;
+    let mut jobs = Vec::new();
+    // (participants, max program length, send op allowed, bound, shards, cap)
+    let plan: Vec<(i64, i64, i64, Option<usize>, i64, u64)> = if quick {
+        vec![(2, 2, 0, None, 1, 30), (2, 3, 0, None, 4, 30), (2, 1, 1, None, 1, 30), (3, 1, 0, None, 2, 30)]
+    } else {
+        vec![
+            (2, 3, 0, None, 2, 700),
+            (3, 1, 0, None, 1, 700),
+            (2, 2, 1, None, 12, 700),
+            (2, 3, 1, Some(3), 12, 700),
+            (3, 2, 0, Some(3), 12, 700),
+        ]
+    };
+    for (parts, len, send, bound, shards, cap) in plan {
+        for sh in 0..shards {
+            let shape = format!(
+                "ArcStr: {parts} participants, every valid program over {{clone, read, drop{}}} of length <= {len}; shard {sh}/{shards}",
+                if send != 0 { ", send-clone-to-new-thread" } else { "" }
+            );
+            jobs.push(Job::new("arcstr", "c33", &[parts, len, send, sh, shards], bound, cap, &shape));
+        }
+    }
+    let results = run_jobs(&args.prop, &jobs, PARALLEL);
+    fold(&mut rep, &args.prop, results);
+    guards(&mut rep, &["alloc", "dealloc", "executions_ending_with_storage_freed"]);
+    rep.assume("the tracked read is inserted at the top of ArcStr::as_ref and the tracked write in the dealloc shim: the text bytes themselves are ordinary memory");
+    rep.assume("reference-count overflow (more than isize::MAX clones) is outside the explored space");
+    rep.finish()
 }
